@@ -133,6 +133,35 @@ fn check_for_boolean_directive(
             None => break,
             Some(capture) =>
             {
+                /*
+                 * Text that looks like a comment but starts inside a string literal (an odd number
+                 * of unescaped double quotes in front of it) is not a comment: the line is code.
+                 */
+                let comment_start = capture.get(0).map_or(0, |whole| whole.start());
+                let mut quotes_before = 0;
+                let mut escaped = false;
+
+                for c in line[..comment_start].chars()
+                {
+                    if escaped
+                    {
+                        escaped = false;
+                    }
+                    else if c == '\\'
+                    {
+                        escaped = true;
+                    }
+                    else if c == '"'
+                    {
+                        quotes_before += 1;
+                    }
+                }
+
+                if quotes_before % 2 == 1
+                {
+                    break;
+                }
+
                 for group in capture.iter()
                 {
                     match group
